@@ -40,7 +40,9 @@ J('IsQuantizationValid.contract', 'h_enf_AQT_IsQuantizationValid', ['C04', 'C12'
 J('Dequantizer_Init.contract', 'h_enf_Dequantizer_Init', ['C04'], enforce='Dequantizer_Init')
 J('range', 'h_aqt_range', ['C04'], unwind=6, unwind_reason='bounded: num_components <= 4 (component loop)', native=True)
 TYPES_PRELUDE = ['core_types.h']
-COSIM = False
+COSIM = True
+NATIVE_SOURCES = ['src/draco/core/quantization_utils.cc', 'src/draco/attributes/attribute_quantization_transform.cc', 'src/draco/attributes/attribute_transform.cc', 'src/draco/attributes/point_attribute.cc', 'src/draco/attributes/geometry_attribute.cc', 'src/draco/core/data_buffer.cc', 'src/draco/core/draco_types.cc']
+NATIVE_LINK_CORE = False
 ASSUMPTIONS = ['IEEE-754 binary32/64 round-to-nearest-even as modelled bit-exactly by CBMC (float kernels compiled without -ffast-math, x86-64 SSE arithmetic: no excess precision)',
                'the half-step error bound itself (quant.halfstep) is NOT decided: measured undecided (>25 min) even for q=2; what is proved is the index range, monotonicity, purity, the Dequantizer guard and the range computation',
                'AttributeQuantizationTransform::ComputeParameters is covered only from its per-component extent loop on (slicer rule region); std::vector<float> min_values_ modelled as a float pointer']
